@@ -28,6 +28,7 @@ type Run struct {
 	Imports    map[string]int
 	ImportUse  map[string]bool
 	Registered []Value
+	AddArgs    []Value // the argument types of the call as given to Add
 	Generating [][]Value
 	RecCut     bool
 	Dup        bool // same text as an earlier accepted run of this plugin
@@ -245,6 +246,7 @@ func (s *Sweeper) one(plugin string, newFn *VFunc, cfg sweepConfig, or *Oracle) 
 	nargs := cfg.nargs[in.decide("ARGS", len(cfg.nargs))]
 	run.NArgs = nargs
 	typs := in.opaqueList("typs", nargs, "")
+	run.AddArgs = typs.Elems
 	ares := in.callFunc(add, []Value{hole("NAME", "callname"), typs}, token.NoPos)
 	at, ok := ares.(VTuple)
 	if !ok || len(at.Vals) != 2 {
